@@ -330,3 +330,86 @@ Example C13_ex_number_period_rule : forall un ua,
   | _ => False
   end.
 Proof. intros. vm_compute. reflexivity. Qed.
+
+(* ------------------------------------------------------------------------------------------
+   (d) continued: Symbol tokens and the backtick identifier forms (LexingState::Identifier). *)
+From GV Require Import Proofs.C13.LexMaxSym.
+
+(* A Symbol token is ':' followed by identifier characters -- alphanumeric, '_' or ':', the
+   same class as for Identifier tokens -- of which the first is not ':' (`::a` is an
+   Identifier).  There may be none: the bare ":" IS lexed as a Symbol token (the "Identifiers
+   must contain more than 1 character" error is only raised for an Identifier-typed token and
+   the run ":" has been retyped Symbol before that test).  The token cannot be extended: the
+   next input character, if any, is neither an identifier character nor a backtick (a
+   backtick would have been taken and made the token a PrefixIdentifier, `:a``). *)
+Theorem C13_symbol_maximal : forall un ua s ts,
+  lex un ua s = Ok ts ->
+  forall pre t post, ts = pre ++ t :: post -> tok_type t = TT_Symbol ->
+    (exists r, tok_text t = 58 :: r /\ forallb (is_identifier_char ua) r = true /\
+               match r with c :: _ => c <> 58 | [] => True end) /\
+    match concat (map tok_text post) with
+    | c :: _ => is_identifier_char ua c = false /\ c <> 96
+    | [] => True
+    end.
+Proof. exact lex_symbol_maximal. Qed.
+Print Assumptions C13_symbol_maximal.
+
+(* `:a:b+: :a` ::a` : a symbol with an inner ':', the empty symbol ":", `:a`` is a
+   PrefixIdentifier, `::a` an Identifier *)
+Example C13_ex_symbol_maximal : forall un ua,
+  match lex un ua [58; 97; 58; 98; 43; 58; 32; 58; 97; 96; 32; 58; 58; 97] with
+  | Ok ts => map (fun t => (tok_text t, tok_type t)) ts =
+             [([58; 97; 58; 98], TT_Symbol); ([43], TT_PlusSign); ([58], TT_Symbol);
+              ([32], TT_Whitespace); ([58; 97; 96], TT_PrefixIdentifier); ([32], TT_Whitespace);
+              ([58; 58; 97], TT_Identifier)]
+  | _ => False
+  end.
+Proof. intros. vm_compute. reflexivity. Qed.
+
+(* The backtick identifier forms, named by the token type the lexer gives them (note the
+   naming: the form that STARTS with the backtick is TT_SuffixIdentifier, the one that ENDS
+   with it is TT_PrefixIdentifier):
+   * TT_SuffixIdentifier, "`f": a backtick followed by identifier characters, possibly none
+     (a lone "`" is a SuffixIdentifier token); maximal: the next input character, if any, is
+     neither an identifier character nor a backtick;
+   * TT_InfixIdentifier, "`f`": a backtick, identifier characters (possibly none: "``"), and
+     a closing backtick;
+   * TT_PrefixIdentifier, "f`": a non-empty run of identifier characters whose first is not
+     numeric (what an Identifier or Symbol token could be, including ":" and ":a"), then a
+     backtick.
+   For the last two the closing backtick ends the token and nothing is required of the next
+   character: `f`g is InfixIdentifier, Identifier (second example). *)
+Theorem C13_backtick_identifier_forms : forall un ua s ts,
+  lex un ua s = Ok ts ->
+  forall pre t post, ts = pre ++ t :: post ->
+    (tok_type t = TT_SuffixIdentifier ->
+       (exists r, tok_text t = 96 :: r /\ forallb (is_identifier_char ua) r = true) /\
+       match concat (map tok_text post) with
+       | c :: _ => is_identifier_char ua c = false /\ c <> 96
+       | [] => True
+       end) /\
+    (tok_type t = TT_InfixIdentifier ->
+       exists r, tok_text t = 96 :: r ++ [96] /\ forallb (is_identifier_char ua) r = true) /\
+    (tok_type t = TT_PrefixIdentifier ->
+       exists r, tok_text t = r ++ [96] /\ forallb (is_identifier_char ua) r = true /\
+                 match r with c :: _ => is_numeric un c = false | [] => False end).
+Proof. exact lex_backtick_identifier_forms. Qed.
+Print Assumptions C13_backtick_identifier_forms.
+
+(* "`f` `f f` ` `` `f`g" and "1`" (a numeric character does not start the f` form) *)
+Example C13_ex_backtick_identifier_forms : forall un ua,
+  match lex un ua [96; 102; 96; 32; 96; 102; 32; 102; 96; 32; 96; 32; 96; 96; 32; 96; 102; 96; 103] with
+  | Ok ts => map (fun t => (tok_text t, tok_type t)) ts =
+             [([96; 102; 96], TT_InfixIdentifier); ([32], TT_Whitespace);
+              ([96; 102], TT_SuffixIdentifier); ([32], TT_Whitespace);
+              ([102; 96], TT_PrefixIdentifier); ([32], TT_Whitespace);
+              ([96], TT_SuffixIdentifier); ([32], TT_Whitespace);
+              ([96; 96], TT_InfixIdentifier); ([32], TT_Whitespace);
+              ([96; 102; 96], TT_InfixIdentifier); ([103], TT_Identifier)]
+  | _ => False
+  end /\
+  match lex un ua [49; 96] with
+  | Ok ts => map (fun t => (tok_text t, tok_type t)) ts = [([49], TT_Number); ([96], TT_SuffixIdentifier)]
+  | _ => False
+  end.
+Proof. intros. split; vm_compute; reflexivity. Qed.
